@@ -20,8 +20,9 @@ func init() {
 
 type responsesSpec struct {
 	Echo map[string]struct {
-		Field  string `json:"field"`
-		Layout string `json:"layout"`
+		Field   string `json:"field"`
+		Layout  string `json:"layout"`
+		MinBody int64  `json:"min_body"`
 	} `json:"echo"`
 	NoEcho map[string]string `json:"no_echo"`
 }
@@ -33,6 +34,7 @@ func runC12(c *Ctx) {
 	R.Rules["E3.command"] = "a command is stamped with a fresh serial, recorded in the outstanding map under that same serial, encoded with it and written exactly once; the timeout message carries the same serial"
 	R.Rules["E6.predicate"] = "each response type is correlated by comparing the candidate serial with the field of the parsed response that echoes the platform serial (a predicate that ignores its argument completes another caller's request); 0x1003, which echoes nothing, may only complete an outstanding 0x9003"
 	R.Rules["E3.field"] = "the echoed-serial field of each response type is read from the wire at the standard's offset"
+	R.Rules["E3.accept-min"] = "each response parser accepts the shortest body the standard allows for that response (spec/responses.json min_body): a successful return exists that is feasible for that length"
 	R.Rules["S.complete"] = "a completion is delivered to the reply channel of the recorded request and the record is deleted right after; a matched response carries the matched key; unmatched traffic falls through to the normal reply"
 	R.Rules["E5.timeout-capture"] = "the timeout goroutine of a command works on what was fixed when the command was written - captured values and the completion message built for that command - and on the connection's channels; it does not read the caller's ActiveMessage (which the writer re-stamps with a new serial when the caller sends it again) nor other mutable connection state after its wait"
 	R.Rules["E5.timeout"] = "see C13: a timeout goroutine is started for every duration >= 0"
@@ -326,9 +328,13 @@ func runC12(c *Ctx) {
 			}
 		}
 		sort.Slice(entries, func(i, j int) bool { return entries[i].String() < entries[j].String() })
+		jtArg := map[*ssa.Function]absint.Term{}
 		res := c.RunE1(entries, false, func(a *absint.Analyzer, fn *ssa.Function, st *absint.State, args []absint.Term) {
 			preJTMsg(a, fn, st, args)
 			a.TrackObj(st, args[0], fn.Params[0].Type())
+			c.mu.Lock()
+			jtArg[fn] = args[1]
+			c.mu.Unlock()
 		})
 		for _, r := range res {
 			tn, _ := derefNamed(r.Fn.Params[0].Type())
@@ -351,7 +357,28 @@ func runC12(c *Ctx) {
 				st = report.Violated
 			}
 			R.Add("E3.field", shortFn(r.Fn)+" / "+want.Field, c.P.RelPos(r.Fn.Pos()), st, d)
+			// the shortest legal body is accepted: some successful return is feasible with len(body) == min_body (a parser that
+			// asks for room for a first list entry rejects the legal "nothing to report" answer: the command it answers times out)
+			if want.MinBody > 0 {
+				okMin, nSucc := false, 0
+				for _, ret := range r.Rets {
+					if _, isNil := ret.Val.(absint.NilT); !isNil {
+						continue
+					}
+					nSucc++
+					bt := findField(r.A, ret.St, jtArg[r.Fn], r.Fn.Params[1].Type(), []string{"Body"})
+					if bs, isS := bt.(*absint.Slice); isS && ret.St.Feasible(absint.Con{L: bs.Len.AddC(-want.MinBody), Rel: absint.EQ}) {
+						okMin = true
+					}
+				}
+				st, d = report.Discharged, ""
+				if !okMin {
+					st, d = report.Violated, fmt.Sprintf("no successful return of %s.Parse is possible for a body of %d bytes, the shortest the standard allows (%d successful returns examined): the legal minimal response is rejected and the command it answers runs into its timeout", tn, want.MinBody, nSucc)
+				}
+				R.Add("E3.accept-min", shortFn(r.Fn)+fmt.Sprintf(" / accepts the %d-byte minimal body", want.MinBody), c.P.RelPos(r.Fn.Pos()), st, d)
+			}
 		}
+		R.Require("E3.accept-min", 5, "")
 	}
 	// ---- every outstanding request is examined by the matching loop
 	{
